@@ -11,13 +11,13 @@ func allChecks() []*Check {
 		{
 			ID: "C03", Title: "Foreground handlers see server events one at a time, in wire order",
 			Harnesses: []Harness{
-				{Pkg: "client", Func: "VerifSession", Sched: true, Quick: map[string]int{"N": 3, "SW": 1, "KINDS": 0, "TRACK": 0}, Thorough: map[string]int{"N": 4, "SW": 2, "KINDS": 0, "TRACK": 0}, Asserts: []string{"fg-handlers-of-different-lines-never-overlap", "fg-handlers-in-wire-order", "CONNECTED-after-welcome-applied", "CONNECTED-before-any-later-line", "later-line-only-after-CONNECTED-finished", "DISCONNECTED-only-after-fg-handlers-finished", "DISCONNECTED-exactly-once", "every-handler-of-every-line-exactly-once"}},
-				{Pkg: "client", Func: "VerifSession", Sched: true, Quick: map[string]int{"N": 3, "SW": 1, "KINDS": 0, "TRACK": 0, "EARLY": 1}, Thorough: map[string]int{"N": 4, "SW": 2, "KINDS": 1, "TRACK": 0, "EARLY": 1}, Asserts: []string{"DISCONNECTED-only-after-fg-handlers-finished", "DISCONNECTED-exactly-once", "fg-handlers-in-wire-order"}, Note: "disconnect while lines are being processed"},
+				{Pkg: "client", Func: "VerifSession", Sched: true, Quick: map[string]int{"N": 3, "SW": 1, "KINDS": 0, "TRACK": 0}, Thorough: map[string]int{"N": 3, "SW": 2, "KINDS": 0, "TRACK": 0}, Asserts: []string{"fg-handlers-of-different-lines-never-overlap", "fg-handlers-in-wire-order", "CONNECTED-after-welcome-applied", "CONNECTED-before-any-later-line", "later-line-only-after-CONNECTED-finished", "DISCONNECTED-only-after-fg-handlers-finished", "DISCONNECTED-exactly-once", "every-handler-of-every-line-exactly-once"}},
+				{Pkg: "client", Func: "VerifSession", Sched: true, Quick: map[string]int{"N": 3, "SW": 1, "KINDS": 0, "TRACK": 0, "EARLY": 1}, Thorough: map[string]int{"N": 3, "SW": 2, "KINDS": 0, "TRACK": 0, "EARLY": 1}, Asserts: []string{"DISCONNECTED-only-after-fg-handlers-finished", "DISCONNECTED-exactly-once", "fg-handlers-in-wire-order"}, Note: "disconnect while lines are being processed"},
 				{Pkg: "client", Func: "VerifC01Deliver", Quick: map[string]int{"LONG": 1, "VBL": 1, "TL": 1}, Thorough: map[string]int{"LONG": 1, "VBL": 2, "TL": 2}, Asserts: []string{"delivered-equal", "next-line-delivered"}, Note: "a line longer than the read buffer, followed by another"},
 				{Pkg: "client", Func: "VerifC03Burst", Sched: true, Quick: map[string]int{"LINES": 40, "SW": 1, "KINDS": 0}, Thorough: map[string]int{"LINES": 70, "SW": 1, "KINDS": 1}, Asserts: []string{"burst:every-line-delivered-once", "burst:delivered-in-wire-order"}, Note: "more lines in one read than the internal queue holds, behind a held handler"},
 			},
-			Bounds: map[string]string{"quick": "a scripted session of 3 lines (001 changing the nick, own JOIN, PING; thorough adds another user's JOIN and a PRIVMSG; names symbolic) over the real Connect/recv/runLoop/dispatch/Close with 2 foreground + 1 background handler per verb and CONNECTED/DISCONNECTED handlers; the byte stream cut into reads in 4 ways (whole, mid-line, between CR and LF, at a line boundary); one designated handler invocation returns / yields mid-way; ended by server EOF, one Close, or two Closes racing EOF, after delivery or while lines are in flight; goroutine schedules: the deterministic run-until-block schedule plus every schedule within 1 deviation (delay bound 1) at block points, select choices and explicit yields; a 4200-byte line through recv",
-				"thorough": "4 lines, delay bound 2, preemption also at mutex operations"},
+			Bounds: map[string]string{"quick": "a scripted session of 3 lines (001 changing the nick, own JOIN, PING; thorough adds another user's JOIN and a PRIVMSG; names symbolic) over the real Connect/recv/runLoop/dispatch/Close with 2 foreground + 1 background handler per verb and CONNECTED/DISCONNECTED handlers; the byte stream cut into reads in 4 ways (whole, mid-line, between CR and LF, at a line boundary); one designated handler invocation returns / yields mid-way; ended by server EOF, one Close, or two Closes racing EOF, after delivery or while lines are in flight; goroutine schedules: the deterministic run-until-block schedule plus every schedule within 1 deviation (delay bound 1) at block points, select choices and explicit yields; foreground handlers reply with Raw; a 4200-byte line through recv; a burst of 40 lines in one read (more than the 32-slot internal queue) behind a held foreground handler, delay bound 1",
+				"thorough": "3 lines with delay bound 2; burst of 70 lines with preemption also at mutex operations"},
 			Outside:     []string{"schedules needing more deviations than the delay bound; GOMAXPROCS is immaterial to the model (every interleaving at the modelled visible operations is a schedule of the coroutine scheduler, but only those within the bound are explored)", "more lines / handlers", "REGISTER ordering (as in the property)"},
 			Stubs:       []string{"goroutines = coroutines under the executor's scheduler (channel, mutex, WaitGroup, select, context models)", "bufio model, in-memory wire, proxy dialler stub"},
 			QuickBudget: 6 * time.Minute, ThorBudget: 60 * time.Minute,
@@ -25,11 +25,11 @@ func allChecks() []*Check {
 		{
 			ID: "C05", Title: "State tracking is applied before user handlers observe a line",
 			Harnesses: []Harness{
-				{Pkg: "client", Func: "VerifSession", Sched: true, Quick: map[string]int{"N": 3, "SW": 1, "KINDS": 0, "TRACK": 1}, Thorough: map[string]int{"N": 4, "SW": 2, "KINDS": 0, "TRACK": 1}, Asserts: []string{"tracker-reflects-the-line-at-handler-entry", "tracker-not-ahead-while-fg-handler-runs"}},
+				{Pkg: "client", Func: "VerifSession", Sched: true, Quick: map[string]int{"N": 3, "SW": 1, "KINDS": 0, "TRACK": 1}, Thorough: map[string]int{"N": 3, "SW": 2, "KINDS": 0, "TRACK": 1}, Asserts: []string{"tracker-reflects-the-line-at-handler-entry", "tracker-not-ahead-while-fg-handler-runs"}},
 				{Pkg: "client", Func: "VerifSession", Sched: true, Quick: map[string]int{"N": 3, "SW": 1, "KINDS": 0, "TRACK": 1, "SCRIPT": 1}, Thorough: map[string]int{"N": 5, "SW": 1, "KINDS": 0, "TRACK": 1, "SCRIPT": 1}, Asserts: []string{"tracker-reflects-the-line-at-handler-entry", "tracker-not-ahead-while-fg-handler-runs"}, Note: "tracker-centred script: own JOIN, other JOIN, NICK, MODE +o, TOPIC; handlers read channel snapshots"},
 				{Pkg: "client", Func: "VerifC05Internal", Asserts: []string{"state-handler-is-internal", "state-handler-not-in-user-sets"}},
 			},
-			Bounds:      map[string]string{"quick": "the C03 session (3 lines: 001 changing the nick, own JOIN creating the channel, another user's JOIN) with state tracking on: every foreground and background user handler checks at entry that the tracker reflects its line, and a foreground handler that yields mid-way checks that the next line is not applied yet; schedules within delay bound 1; plus: every state handler is registered in the internal set only", "thorough": "4 lines, delay bound 2"},
+			Bounds:      map[string]string{"quick": "the C03 session (3 lines: 001 changing the nick, own JOIN creating the channel, another user's JOIN) with state tracking on: every foreground and background user handler checks at entry that the tracker reflects its line, and a foreground handler that yields mid-way checks that the next line is not applied yet; schedules within delay bound 1; a second, tracker-centred script (own JOIN, another user's JOIN, that user's NICK; thorough adds MODE +o and TOPIC) where the handlers read the channel snapshot and compute which line the tracker has reached; plus: every state handler is registered in the internal set only", "thorough": "3 lines with delay bound 2; tracker-centred script of 5 lines with delay bound 1"},
 			Outside:     []string{"other state-changing verbs in the scheduled session (what each handler does to the tracker is C13's subject)", "schedules beyond the delay bound"},
 			Stubs:       []string{"as C03"},
 			QuickBudget: 6 * time.Minute, ThorBudget: 60 * time.Minute,
@@ -39,13 +39,13 @@ func allChecks() []*Check {
 			Harnesses: []Harness{
 				{Pkg: "client", Func: "VerifC06Refused", Asserts: []string{"refused-with-error", "no-event-fired", "live-connection-untouched", "close-noop-returns-nil", "tracker-not-wiped"}},
 				{Pkg: "client", Func: "VerifC18Dial", Quick: map[string]int{"HL": 1}, Thorough: map[string]int{"HL": 2}, Asserts: []string{"failed-connect-fires-nothing", "failed-connect-not-connected", "register-once-before-connect-returns"}, Note: "dial error / TLS handshake failure"},
-				{Pkg: "client", Func: "VerifSession", Sched: true, Quick: map[string]int{"N": 2, "SW": 1, "KINDS": 1, "TRACK": 0}, Thorough: map[string]int{"N": 3, "SW": 2, "KINDS": 1, "TRACK": 1}, Asserts: []string{"DISCONNECTED-exactly-once", "REGISTER-exactly-once", "REGISTER-once-before-Connect-returns", "Connected-false-in-DISCONNECTED-handler", "Connected-true-in-REGISTER-handler"}},
-				{Pkg: "client", Func: "VerifSession", Sched: true, Quick: map[string]int{"N": 2, "SW": 1, "KINDS": 1, "TRACK": 0, "EARLY": 1}, Thorough: map[string]int{"N": 3, "SW": 2, "KINDS": 1, "TRACK": 0, "EARLY": 1}, Asserts: []string{"DISCONNECTED-exactly-once", "REGISTER-exactly-once"}, Note: "ends while lines are in flight"},
+				{Pkg: "client", Func: "VerifSession", Sched: true, Quick: map[string]int{"N": 2, "SW": 1, "KINDS": 1, "TRACK": 0}, Thorough: map[string]int{"N": 3, "SW": 1, "KINDS": 1, "TRACK": 1}, Asserts: []string{"DISCONNECTED-exactly-once", "REGISTER-exactly-once", "REGISTER-once-before-Connect-returns", "Connected-false-in-DISCONNECTED-handler", "Connected-true-in-REGISTER-handler"}},
+				{Pkg: "client", Func: "VerifSession", Sched: true, Quick: map[string]int{"N": 2, "SW": 1, "KINDS": 1, "TRACK": 0, "EARLY": 1}, Thorough: map[string]int{"N": 3, "SW": 1, "KINDS": 1, "TRACK": 0, "EARLY": 1}, Asserts: []string{"DISCONNECTED-exactly-once", "REGISTER-exactly-once"}, Note: "ends while lines are in flight"},
 				{Pkg: "client", Func: "VerifSession", Sched: true, Quick: map[string]int{"N": 2, "SW": 1, "KINDS": 0, "TRACK": 0, "EARLY": 1, "FLOODHOLD": 1, "SLIM": 1}, Thorough: map[string]int{"N": 3, "SW": 1, "KINDS": 1, "TRACK": 0, "EARLY": 1, "FLOODHOLD": 1, "SLIM": 1}, Asserts: []string{"DISCONNECTED-exactly-once", "REGISTER-exactly-once"}, Note: "flood control engaged: the connection ends while the sender is holding a line back"},
 				{Pkg: "client", Func: "VerifC06CancelDuringConnect", Sched: true, Quick: map[string]int{"SW": 1}, Thorough: map[string]int{"SW": 2}, Asserts: []string{"REGISTER-exactly-once", "DISCONNECTED-exactly-once"}},
 				{Pkg: "client", Func: "VerifC06WriteError", Sched: true, Quick: map[string]int{"SW": 1}, Thorough: map[string]int{"SW": 2}, Asserts: []string{"DISCONNECTED-exactly-once"}},
 			},
-			Bounds:      map[string]string{"quick": "refused connects (no server / already connected) and Close when not connected, with and without tracking; dial error and TLS handshake failure; scripted sessions of 2 lines ended by server EOF, one Close, two Closes racing EOF - after delivery or while lines are in flight - and by an error on the k-th socket write or context cancellation; schedules within delay bound 1 with preemption at mutex operations and explicit yields", "thorough": "3 lines, delay bound 2"},
+			Bounds:      map[string]string{"quick": "refused connects (no server / already connected) and Close when not connected, with and without tracking; dial error and TLS handshake failure; scripted sessions of 2 lines ended by server EOF, one Close, two Closes racing EOF - after delivery or while lines are in flight - and by an error on the k-th socket write or context cancellation; schedules within delay bound 1 with preemption at mutex operations and explicit yields; foreground handlers reply with Raw; a session with flood control on and already engaged (the sender holds back the first lines; timers fire only when nothing else can run) ended while lines are in flight", "thorough": "3 lines, delay bound 1 with tracking"},
 			Outside:     []string{"schedules beyond the delay bound", "client pings (PingFreq > 0) in the scheduled sessions", "a successful reconnect while DISCONNECTED handlers run (C07)"},
 			Stubs:       []string{"as C03; dialler / TLS stubs as C18"},
 			QuickBudget: 6 * time.Minute, ThorBudget: 60 * time.Minute,
@@ -53,12 +53,12 @@ func allChecks() []*Check {
 		{
 			ID: "C16", Title: "A misbehaving handler cannot stop event delivery",
 			Harnesses: []Harness{
-				{Pkg: "client", Func: "VerifSession", Sched: true, Quick: map[string]int{"N": 3, "SW": 1, "KINDS": 0, "TRACK": 1, "PANICS": 1}, Thorough: map[string]int{"N": 4, "SW": 2, "KINDS": 0, "TRACK": 1, "PANICS": 1}, Asserts: []string{"every-panic-reached-Recover", "every-handler-of-every-line-exactly-once", "DISCONNECTED-exactly-once", "DISCONNECTED-not-delayed-by-stuck-background-handler"}},
+				{Pkg: "client", Func: "VerifSession", Sched: true, Quick: map[string]int{"N": 3, "SW": 1, "KINDS": 0, "TRACK": 1, "PANICS": 1}, Thorough: map[string]int{"N": 3, "SW": 2, "KINDS": 0, "TRACK": 1, "PANICS": 1}, Asserts: []string{"every-panic-reached-Recover", "every-handler-of-every-line-exactly-once", "DISCONNECTED-exactly-once", "DISCONNECTED-not-delayed-by-stuck-background-handler"}},
 				{Pkg: "client", Func: "VerifC16Recover", Asserts: []string{"recover-called-with-conn-and-line", "handle-returns-normally", "default-logs-an-error", "builtin-handler-panic-recovered", "later-handlers-still-run"}},
 				{Pkg: "client", Func: "VerifC16Builtin", Asserts: []string{"builtin-handler-panic-recovered", "later-handlers-still-run"}, Note: "every built-in verb without parameters from 4 kinds of source, then a well-formed line per verb"},
 				{Pkg: "client", Func: "VerifC16Background", Asserts: []string{"foreground-not-delayed-by-stuck-background"}},
 			},
-			Bounds:      map[string]string{"quick": "the C03 session where one designated handler invocation (any line, foreground or background) panics or - background - never returns: the panic reaches the configured Recover, every other handler of that line and of all later lines still runs exactly once, DISCONNECTED still arrives once; hNode.Handle with handlers panicking with a string / error / runtime error / struct, default LogPanic; a built-in handler panicking on a malformed line; every verb with a built-in handler as a parameterless line from no source / the client / another user / the server, tracking on/off, followed by a well-formed line for each of 20 built-in verbs and a user event (a deadlock is a violation); 40 events with a background handler that never returns, the event itself having 0..2 foreground handlers, each followed by a different event", "thorough": "4 lines, delay bound 2"},
+			Bounds:      map[string]string{"quick": "the C03 session where one designated handler invocation (any line, foreground or background) panics or - background - never returns: the panic reaches the configured Recover, every other handler of that line and of all later lines still runs exactly once, DISCONNECTED still arrives once; hNode.Handle with handlers panicking with a string / error / runtime error / struct, default LogPanic; a built-in handler panicking on a malformed line; every verb with a built-in handler as a parameterless line from no source / the client / another user / the server, tracking on/off, followed by a well-formed line for each of 20 built-in verbs and a user event (a deadlock is a violation); 40 events with a background handler that never returns, the event itself having 0..2 foreground handlers, each followed by a different event", "thorough": "3 lines, delay bound 2"},
 			Outside:     []string{"panic(nil)", "a user Recover that does not call recover()", "schedules beyond the delay bound"},
 			Stubs:       []string{"as C03"},
 			QuickBudget: 6 * time.Minute, ThorBudget: 60 * time.Minute,
@@ -66,11 +66,11 @@ func allChecks() []*Check {
 		{
 			ID: "C07", Title: "Disconnect always completes, leaks nothing, and the client can reconnect",
 			Harnesses: []Harness{
-				{Pkg: "client", Func: "VerifC07Teardown", Sched: true, Quick: map[string]int{"INB": 3, "OUTB": 0, "SW": 1}, Thorough: map[string]int{"INB": 5, "OUTB": 3, "SW": 2}, Asserts: []string{"DISCONNECTED-delivered-once", "Close-returned", "monitor:no-goroutine-left-behind"}, Note: "small backlogs, delay-bounded schedules"},
+				{Pkg: "client", Func: "VerifC07Teardown", Sched: true, Quick: map[string]int{"INB": 3, "OUTB": 0, "SW": 1}, Thorough: map[string]int{"INB": 4, "OUTB": 2, "SW": 2}, Asserts: []string{"DISCONNECTED-delivered-once", "Close-returned", "monitor:no-goroutine-left-behind"}, Note: "small backlogs, delay-bounded schedules"},
 				{Pkg: "client", Func: "VerifC07Teardown", Sched: true, Quick: map[string]int{"INB": 70, "OUTB": 0, "SW": 1}, Thorough: map[string]int{"INB": 140, "OUTB": 0, "SW": 1}, Asserts: []string{"DISCONNECTED-delivered-once"}, Note: "inbound backlog beyond twice the queue capacity"},
 				{Pkg: "client", Func: "VerifC07Teardown", Sched: true, Quick: map[string]int{"INB": 0, "OUTB": 70, "SW": 0}, Thorough: map[string]int{"INB": 40, "OUTB": 140, "SW": 0}, Asserts: []string{"DISCONNECTED-delivered-once"}, Note: "a handler emitting more lines than twice the queue capacity to a stalled peer"},
 				{Pkg: "client", Func: "VerifC07Teardown", Sched: true, Quick: map[string]int{"INB": 0, "OUTB": 40, "PRODUCER": 1, "SW": 0}, Thorough: map[string]int{"INB": 8, "OUTB": 80, "PRODUCER": 1, "SW": 1}, Asserts: []string{"DISCONNECTED-delivered-once"}, Note: "a user goroutine flooding a stalled peer"},
-				{Pkg: "client", Func: "VerifC07Reconnect", Sched: true, Quick: map[string]int{"CYCLES": 2, "SW": 1, "KINDS": 1}, Thorough: map[string]int{"CYCLES": 3, "SW": 2, "KINDS": 1}, Asserts: []string{"old-teardown-disconnects-new-connection", "new-connection-stays-up", "new-socket-not-closed-by-old-teardown", "registration-reaches-the-new-socket", "REGISTER-once-per-connection", "DISCONNECTED-once-per-ended-connection"}},
+				{Pkg: "client", Func: "VerifC07Reconnect", Sched: true, Quick: map[string]int{"CYCLES": 2, "SW": 1, "KINDS": 1}, Thorough: map[string]int{"CYCLES": 2, "SW": 2, "KINDS": 1}, Asserts: []string{"old-teardown-disconnects-new-connection", "new-connection-stays-up", "new-socket-not-closed-by-old-teardown", "registration-reaches-the-new-socket", "REGISTER-once-per-connection", "DISCONNECTED-once-per-ended-connection"}},
 				{Pkg: "client", Func: "VerifC07Wipe", Asserts: []string{"tracker-reset-on-connect", "tracker-is-just-the-client"}},
 			},
 			Bounds: map[string]string{"quick": "teardown (user Close from another goroutine / server EOF / context cancellation) behind a long-running foreground handler with 3 unprocessed lines (delay bound 1, flood control on/off, tracking on/off), with 70 unprocessed lines (> 2x the 32-slot queue; delay bound 1 so that select may pick the cancelled context while the queue is full), and with a handler emitting 70 lines to a stalled peer; 2 connect/disconnect cycles with the reconnect issued from the DISCONNECTED handler or from a goroutine it wakes (delay bound 1, preemption at mutex operations); tracker reset on connect",
@@ -86,8 +86,8 @@ func allChecks() []*Check {
 				{Pkg: "client", Func: "VerifC09Order", Sched: true, Quick: map[string]int{"S": 2, "L": 1, "BIG": 36, "SW": 1}, Thorough: map[string]int{"S": 2, "L": 2, "BIG": 40, "SW": 2}, Asserts: []string{"every-line-written-exactly-once", "line-is-the-next-of-its-sender-byte-for-byte"}, Note: "one sender with more lines outstanding than the queue holds"},
 				{Pkg: "client", Func: "VerifC09Bytes", Asserts: []string{"wire-is-exactly-line-crlf", "raw-enqueues-the-line-unchanged", "no-byte-written-twice-after-a-timeout"}},
 			},
-			Bounds:      map[string]string{"quick": "2 senders (a user goroutine and a foreground handler) x 2 lines, and one sender with 37 lines against a 32-slot queue; peer reading fast / one line at a time / in one burst after everything was issued; schedules: run-until-block plus every schedule within delay bound 1 (block points, select, explicit yields after each Raw and each peer read); byte-exactness of write() for lines of 0,1,509..513,600,4000 bytes with a symbolic last byte", "thorough": "3 senders x 3 lines, 42 lines backlog, delay bound 2"},
-			Outside:     []string{"schedules beyond the delay bound", "flood control on (C10)", "connection drops while sending (the property is conditional on the connection staying up)"},
+			Bounds:      map[string]string{"quick": "2 senders (a user goroutine and a foreground handler) x 2 lines, and one sender with 37 lines against a 32-slot queue; peer reading fast / one line at a time / in one burst after everything was issued; schedules: run-until-block plus every schedule within delay bound 1 (block points, select, explicit yields after each Raw and each peer read); byte-exactness of write() for lines of 0,1,509..513,600,4000 bytes with a symbolic last byte (any value: a '%' must arrive as '%'); the same with a peer that accepts 0..3 bytes of the first socket write and then times out: no byte may reach it twice", "thorough": "3 senders x 3 lines, 42 lines backlog, delay bound 2"},
+			Outside:     []string{"schedules beyond the delay bound", "flood control on (C10)", "what happens to later lines after a write error (the property is conditional on the connection staying up; only 'no byte twice' is asserted then)"},
 			Stubs:       []string{"as C03; the peer is an in-memory wire whose Write waits for a token"},
 			QuickBudget: 6 * time.Minute, ThorBudget: 60 * time.Minute,
 		},
@@ -99,7 +99,7 @@ func allChecks() []*Check {
 				{Pkg: "client", Func: "VerifC13Arbitrary", Quick: map[string]int{"NU": 1, "NC": 1, "NA": 2}, Thorough: map[string]int{"NU": 2, "NC": 1, "NA": 2},
 					Asserts: []string{"client-still-tracked", "no-channel-without-the-client", "no-user-without-shared-channel"}},
 			},
-			Bounds:      map[string]string{"quick": "pre-state: any conformant network state over the client + 1 other user x 2 channels (names 1 symbolic byte, privileges/modes/topics/details symbolic), tracker built directly as its view; one event of {own JOIN + NAMES with prefixes (+332, +324), other's JOIN (known/new), PART, KICK, QUIT, NICK, channel MODE (privilege / flags / +kl / -l), TOPIC, 352, own user MODE}; arbitrary lines: 15 handled verbs with source and 0..2 arguments drawn from the universe's names, fixed oddities or a symbolic byte", "thorough": "events: 2 other users x 2 channels; arbitrary lines: 2 other users x 1 channel, 0..2 arguments (2 users x 1 channel x 0..3 arguments ran clean once in 31 min, 3.4 M paths, and is not the registered bound)"},
+			Bounds:      map[string]string{"quick": "pre-state: any conformant network state over the client + 1 other user x 2 channels (names 1 symbolic byte, privileges/modes/topics/details symbolic), tracker built directly as its view; one event of {own JOIN + NAMES with prefixes (+332, +324), other's JOIN (known/new), PART with/without message, KICK with a comment / an empty one / none, QUIT with/without message, NICK, channel MODE (privilege / flags / +kl / -l), TOPIC, 352, own user MODE}; arbitrary lines: 15 handled verbs with source and 0..2 arguments drawn from the universe's names, fixed oddities or a symbolic byte", "thorough": "events: 2 other users x 2 channels; arbitrary lines: 2 other users x 1 channel, 0..2 arguments (2 users x 1 channel x 0..3 arguments ran clean once in 31 min, 3.4 M paths, and is not the registered bound)"},
 			Outside:     []string{"larger universes (sessions are unbounded by induction over the conformant-state invariant)", "user modes inferred from WHO flags, -k followed by further arguments (as in the property)", "NAMES lists of more than three entries"},
 			Stubs:       []string{"tracker pre-state built directly in the heap by an exported harness bridge in package state", "reflect.DeepEqual structural model", "goroutines as coroutines"},
 			QuickBudget: 6 * time.Minute, ThorBudget: 40 * time.Minute,
@@ -163,9 +163,9 @@ func allChecks() []*Check {
 				{Pkg: "state", Func: "VerifC14Step", Quick: map[string]int{"NN": 2, "NC": 1}, Thorough: map[string]int{"NN": 3, "NC": 2},
 					Asserts: []string{"at-most-one-critical-section", "lock-released", "monitor:all-accesses-under-lock", "result-is-private-copy", "answers-share-nothing-with-each-other"}},
 			},
-			Bounds:      map[string]string{"quick": "pre-state: any valid tracker state over 2 nick slots x 1 channel (as C12); one call of each of the 16 Tracker methods with symbolic name arguments", "thorough": "3 nick slots x 2 channels"},
+			Bounds:      map[string]string{"quick": "pre-state: any valid tracker state over 2 nick slots x 1 channel (as C12); one call of each of the 16 Tracker methods and of String() with symbolic name arguments; the lock monitor covers map accesses, stores and - for fields that some function of the package stores to outside construction - reads", "thorough": "3 nick slots x 2 channels"},
 			Outside:     []string{"larger universes", "the step from 'every method body is exactly one critical section of one mutex, with every access to tracker-owned heap inside it' to linearizability and data-race freedom is the textbook argument and is not solver-checked; no concurrent history is executed"},
-			Stubs:       []string{"sync.Mutex / RWMutex ghost model with acquisition counter", "heap-reachability intrinsic vShares"},
+			Stubs:       []string{"sync.Mutex / RWMutex ghost model with acquisition counter", "heap-reachability intrinsic vShares", "ChanMode / NickMode / ChanPrivs String() (reflection-based formatting): receiver counted as read, fixed text returned"},
 			QuickBudget: 5 * time.Minute, ThorBudget: 30 * time.Minute,
 		},
 		{
@@ -178,7 +178,7 @@ func allChecks() []*Check {
 				{Pkg: "state", Func: "VerifC12Step", Quick: map[string]int{"NN": 2, "NC": 1, "ML": 3, "MA": 2, "OP": 8, "WARM": 1, "ALPHA": 1, "PLUS": 1, "ONCHAN": 1}, Thorough: map[string]int{"NN": 2, "NC": 1, "ML": 3, "MA": 2, "OP": 8, "WARM": 1, "ALPHA": 1, "ONCHAN": 1},
 					Asserts: []string{"ChannelModes-result", "invariant"}, Note: "ChannelModes, representative alphabet"},
 			},
-			Bounds:      map[string]string{"quick": "pre-state: ANY valid tracker state over 2 nick slots (the client + 1) x 1 channel with every attribute, mode flag and privilege symbolic, names distinct symbolic 1-byte strings (channel names # or &); one call of each of the 13 mutating/query methods + NewTracker with symbolic arguments (names of 0..1 bytes); ChannelModes: 1 mode byte over all 256 values with <= 1 argument, and '+' followed by 2 bytes over a representative alphabet {+,-,i,k,l,o,v,?} with <= 2 arguments", "thorough": "3 nick slots x 2 channels; ChannelModes: 2 bytes over all values, 3 over the representative alphabet, <= 2 arguments"},
+			Bounds:      map[string]string{"quick": "pre-state: ANY valid tracker state over 2 nick slots (the client + 1) x 1 channel with every attribute, mode flag and privilege symbolic, names distinct symbolic 1-byte strings (channel names # or &); one call of each of the 13 mutating/query methods + NewTracker with symbolic arguments (names and NickInfo fields of 0..1 bytes); every query is also run once BEFORE the call, so that anything an implementation memoises on a query is populated when the mutation happens; ChannelModes: 1 mode byte over all 256 values with <= 1 argument, and '+' followed by 2 bytes over a representative alphabet {+,-,i,k,l,o,v,?} with <= 2 arguments", "thorough": "3 nick slots x 2 channels; ChannelModes: 2 bytes over all values, 3 over the representative alphabet, <= 2 arguments"},
 			Outside:     []string{"larger universes (histories are unbounded by induction over the representation invariant)", "String() debug output", "mode strings in which an unspecified argument consumption (privilege change for a nick not on the channel, key removal) is followed by another argument-taking mode (left open by the property)"},
 			Stubs:       []string{"strconv.Atoi exact model (<= 18 digits)", "sync.Mutex ghost model", "map iteration: every order for maps of <= 3 entries"},
 			QuickBudget: 5 * time.Minute, ThorBudget: 40 * time.Minute,
@@ -192,7 +192,7 @@ func allChecks() []*Check {
 				{Pkg: "client", Func: "VerifC04Dispatch", OrderDep: true, Quick: map[string]int{"N": 2}, Thorough: map[string]int{"N": 3},
 					Asserts: []string{"each-once", "ran-exactly-the-registered-count", "late-registration-runs-next-time", "post-invariant"}},
 			},
-			Bounds:      map[string]string{"quick": "pre-state: any well-formed handler set over 2 distinct symbolic names (1-2 ASCII bytes) with 0..2 handlers each, built directly in the heap; one add (either name in any letter case, or a third name) / remove (any node) / snapshot; dispatch of an event in any letter case with self-removal, sibling removal and registration from inside a handler; plus concrete-shape histories of 5 operations (add under either of two names in either case / remove any earlier handler / dispatch) from the empty set against a list model", "thorough": "0..3 handlers per name; histories of 7 operations"},
+			Bounds:      map[string]string{"quick": "pre-state: any well-formed handler set over 2 distinct symbolic names (1-2 ASCII bytes) with 0..2 handlers each, built directly in the heap; one add (either name in any letter case, or a third name) / remove (any node) / snapshot; dispatch of an event in any letter case with self-removal, sibling removal and registration from inside a handler (a deadlock is a violation; the snapshot is observed by dispatching an event and seeing which handlers run); plus concrete-shape histories of 5 operations (add under either of two names in either case / remove any earlier handler / dispatch) from the empty set against a list model", "thorough": "0..3 handlers per name; histories of 7 operations"},
 			Outside:     []string{"more names/handlers than the bound (history length is unbounded by induction)", "true interleavings of racing Handle/Remove with dispatch: decided only through 'each operation is one critical section with every access inside it' (solver-checked on all paths) plus the textbook atomicity argument (not solver-checked)", "background-dispatch start time (as in the property)"},
 			Stubs:       []string{"sync.RWMutex / WaitGroup ghost models", "goroutines run to completion at wg.Wait"},
 			QuickBudget: 5 * time.Minute, ThorBudget: 30 * time.Minute,
@@ -218,9 +218,9 @@ func allChecks() []*Check {
 				{Pkg: "client", Func: "VerifC10Window", Quick: map[string]int{"K": 4}, Thorough: map[string]int{"K": 5}, Solver: "z3-lia", Asserts: []string{"window-bound", "penalty-rule", "held-own-charge"}},
 				{Pkg: "client", Func: "VerifC10Queued", Quick: map[string]int{"K": 4}, Thorough: map[string]int{"K": 5}, Solver: "z3-lia", Asserts: []string{"window-bound", "every-queued-line-reached-the-socket"}, Note: "a burst already queued when the real send goroutine starts; arrival = clock reading of the socket write carrying the line"},
 			},
-			Bounds: map[string]string{"quick": "one rateLimit step from ANY state (penalty 0..2^40 ns, line length 0..2^20, any clock readings); write() for lines of 0..3 bytes, Flood symbolic; 4 consecutive lines (lengths from {0,120,510}) from a fresh client with arbitrary idle gaps",
-				"thorough": "same with 5 consecutive lines"},
-			Outside:     []string{"runs of more than 4 (quick) / 5 (thorough) lines for the window bound (the per-step rule is checked from arbitrary states, i.e. for histories of any length)", "real sleeping and the OS clock (replaced by the model clock)", "a scheduling delay of more than 2 s between a line's accounting/hold and its socket write (environment contract)"},
+			Bounds: map[string]string{"quick": "one rateLimit step from ANY state (penalty 0..2^40 ns, line length 0..2^20, any clock readings); write() for lines of 0..3 bytes, Flood symbolic; 4 consecutive lines (lengths from {0,120,510}) from a fresh client with arbitrary idle gaps; a burst of 4 such lines already queued when the real send goroutine starts, each line timed by the socket write that carried it",
+				"thorough": "same with 5 lines"},
+			Outside:     []string{"runs of more than 4 (quick) / 5 (thorough) lines for the window bound (the per-step rule is checked from arbitrary states, i.e. for histories of any length)", "real sleeping and the OS clock (replaced by the model clock)", "a scheduling delay of more than 2 s between a line's accounting/hold and its socket write (environment contract)", "queued burst: a stall of more than 2 s between two consecutive clock readings beyond the holds requested in between (environment contract)"},
 			Stubs:       []string{"time.Now = fresh non-decreasing solver variable per call", "time.After(d) = records d, advances the model clock by >= d", "bufio model over in-memory conn"},
 			Assumptions: []string{"window bound: each line reaches the socket within 2 s (the minimum charge) of the end of its accounting or hold; without this the solver finds a 6.25 s stall between rateLimit returning and WriteString that the real code cannot exhibit"},
 			QuickBudget: 5 * time.Minute, ThorBudget: 40 * time.Minute,
@@ -289,9 +289,9 @@ func allChecks() []*Check {
 				{Pkg: "client", Func: "VerifC02Recv", Quick: map[string]int{"L": 1, "LONG": 4092, "LONGSPAN": 6}, Thorough: map[string]int{"L": 2, "LONG": 4080, "LONGSPAN": 30}, Asserts: []string{"later-line-processed"}, Note: "lines around and beyond the reader's 4096-byte buffer"},
 				{Pkg: "client", Func: "VerifC02HandlerShapes", Quick: map[string]int{"L": 0, "RUN": 600}, Thorough: map[string]int{"L": 1, "RUN": 600}, Asserts: []string{"later-PING-still-answered", "later-line-still-dispatched"}, Note: "600 copies of one arbitrary byte value after each beginning"},
 			},
-			Bounds:      map[string]string{"quick": "every ASCII byte string of length <= 6", "thorough": "every ASCII byte string of length <= 9"},
-			Outside:     []string{"bytes >= 0x80", "longer lines"},
-			Stubs:       []string{"strings.* models (ASCII)", "logging via real nullLogger"},
+			Bounds:      map[string]string{"quick": "ParseLine + Text/Target/Public on every ASCII byte string of length <= 6, and <= 4 bytes after 6 structural prefixes; every built-in handler's verb with 0..4 arbitrary ASCII bytes as the rest of the line, and 0..2 bytes after each of 37 well-formed beginnings (incl. complete CTCP messages with the closing \\001), tracking on/off, each followed by a well-formed line for every built-in verb and by CAP / PING / PRIVMSG (a deadlock or an unterminated loop is a violation); the same beginnings followed by 600 copies of ONE arbitrary byte value (all 256 but CR, LF and the UTF-8 lead bytes C2/E1/E2/E3); the real recv loop on 0..4 arbitrary ASCII bytes cut into two reads anywhere, and on lines of 4092..4098 bytes (reads split around the 4096-byte buffer), each followed by a well-formed line", "thorough": "lengths 9 / 7 / 6 / 4; recv junk 7 bytes; long lines 4080..4110"},
+			Outside:     []string{"non-ASCII bytes other than as a run of one value; C2/E1/E2/E3 (lead bytes of multi-byte Unicode spaces, refused by the white-space models)", "line lengths between the short bound and the 600 / 4096 windows"},
+			Stubs:       []string{"strings.* models (Fields/TrimSpace treat every byte >= 0x80 as non-space, exact in the absence of C2/E1/E2/E3; case mapping ASCII only)", "bufio.Reader ReadString/ReadLine/ReadSlice/ReadBytes models", "bytes and strings functions without a model are executed from their own SSA", "logging via real nullLogger", "a loop of the code under test that exceeds the unwinding bound is reported only if the native run of the same input does not terminate within 30 s"},
 			QuickBudget: 4 * time.Minute, ThorBudget: 30 * time.Minute,
 		},
 	}
